@@ -66,6 +66,7 @@ def missing_objects(o, out):
 
 LOOK = {"MISSING": lambda: MISSING, "None": lambda: None, "False": lambda: False, "zero": lambda: 0,
         "empty_str": lambda: "", "empty_tuple": lambda: (), "always_equal": AlwaysEqual, "other_state": Holder}
+SENTINEL = object()
 BASE = dict(fresh=0, ok="ok", eq=(False, False), pred=("none", "none", "none"), attrs="none")
 
 
@@ -101,7 +102,7 @@ class MissingDriver:
             x = LOOK[args[0]]()
             return dict(BASE, k="probe", eq=(bool(MISSING == x), bool(x == MISSING)),
                         pred=("is_missing" if is_missing(x) else "not_missing" if not_missing(x) else "neither",
-                              "default" if when_missing(x, "D") == "D" and x != "D" and (x is MISSING or when_missing(x, "D") is not x) else "value",
+                              "default" if when_missing(x, SENTINEL) is SENTINEL else "value",
                               "falsy"))
         if name == "Inspect":
             rejected = True
